@@ -54,6 +54,11 @@ def main(only: str | None = None) -> int:
         r = run_mutant(m)
         results.append(r)
         ok = r.get('detected')
+        if m.get('expect') == 'equivalent':
+            print(f"sensitivity {r['name']} [{m['property']}]: equivalent "
+                  f"mutant, {'flagged anyway' if ok else 'not flagged'} "
+                  f"({m.get('why_equivalent', '')[:90]}...)", flush=True)
+            continue
         print(f"sensitivity {r['name']} [{m['property']}]: "
               f"{'DETECTED' if ok else 'MISSED ' + str(r.get('status', r.get('exit')))}"
               f" in {r.get('seconds')}s {r.get('signatures', [])[:2]}",
